@@ -21,7 +21,7 @@ import tracemalloc
 
 from . import c08_mut as M
 
-TRANSLATORS = []
+TRANSLATORS = ["errpath"]
 
 MANIFEST = {
     "text": "Partial. Proof (Lean 4): the _getMsg/_getNextRecord retry loops, modelled over a finite list of records with the "
@@ -794,7 +794,7 @@ def handshake_sweep(ctx, J, scns, budget_cases):
     slow = set()
     for (scn, base, side, i, name, d) in cases:
         if ctx.out_of_time(0.97):
-            ctx.count("handshake-sweep-cut-by-budget")
+            ctx.count("cut-by-budget:handshake-sweep")     # the random bulk: the only family behind the wall clock
             break
         if getattr(J, "hangs", 0) >= 8:
             ctx.count("sweep-stopped-after-repeated-hangs")
@@ -985,7 +985,7 @@ def raw_sweep(ctx, J, hellos):
         if hello is None:
             continue
         for cls, data, eof in raw_inputs(rng, ctx.thorough(), hello):
-            if ctx.out_of_time(0.9) or getattr(J, "hangs", 0) >= 8:
+            if getattr(J, "hangs", 0) >= 8:
                 return n
             L, peak = with_mem_confirm(ctx, role, lambda: run_raw_case(role, scn, data, eof))
             replay = {"stage": "raw", "scn": sname, "role": role, "data": data if len(data) <= 70000 else None,
@@ -1129,7 +1129,7 @@ def post_sweep(ctx, J):
             cases = [c for i, c in enumerate(cases) if c[0].startswith(("many", "key-update", "heartbeat", "injected", "new-session"))
                      or ctx.rng.random() < 0.5]
         for cls, payload, via in cases:
-            if ctx.out_of_time(0.95) or getattr(J, "hangs", 0) >= 8:
+            if getattr(J, "hangs", 0) >= 8:
                 return n
             L, peak = with_mem_confirm(ctx, victim, lambda: run_post_case(scn, victim, cls, payload, via))
             if L is None:
@@ -1262,9 +1262,16 @@ def run(ctx):
             if b.ok:
                 hellos[(n, "client")] = b.msgs["client"][0][2]
                 hellos[(n, "server")] = b.msgs["server"][0][2]
+        secs = ctx.extra.setdefault("stream_seconds", {})
+        t0 = ctx.elapsed()
         n_raw = raw_sweep(ctx, J, hellos)
+        secs["raw-sweep"] = round(ctx.elapsed() - t0, 1)
+        t0 = ctx.elapsed()
         n_post = post_sweep(ctx, J)
+        secs["post-sweep"] = round(ctx.elapsed() - t0, 1)
+        t0 = ctx.elapsed()
         n_hs = handshake_sweep(ctx, J, scns, ctx.pick(2600, 30000))
+        secs["handshake-sweep"] = round(ctx.elapsed() - t0, 1)
         ctx.extra["cases"] = {"raw": n_raw, "post": n_post, "handshake": n_hs}
     ctx.extra["partial"] = ("explored, not proved: unmodelled statements of tlsconnection.py, X.509/ASN.1, key exchange arithmetic, "
                             "allocation and wall clock")
@@ -1640,8 +1647,9 @@ def ch_correspondence(ctx, J, n):
         f["_vers"] = server_versions(f["_min"])
     lines = [ch_feature_line(f) for f in feats]
     outs = lc.batch(lines) if lc is not None else [None] * len(lines)
-    for f, line, mo in zip(feats, lines, outs):
-        if ctx.out_of_time(0.5):
+    for fi, (f, line, mo) in enumerate(zip(feats, lines, outs)):
+        if fi >= len(directed) + 150 and ctx.out_of_time(0.5):
+            ctx.count("cut-by-budget:client-hello-random")
             break
         impl, L = run_ch_features(f)
         case = {"features": {k: v for k, v in f.items()}, "line": line}
